@@ -203,6 +203,10 @@ type Sim struct {
 	OutOn bool
 	Out   []OutEvent
 
+	// Precursors: known findings whose precondition arose in this case (only
+	// when they are not excluded by construction).
+	Precursors map[string]bool
+
 	// Exclude lists known-finding signatures excluded by construction.
 	Exclude map[string]bool
 
